@@ -339,6 +339,15 @@ def _params(op, rng, shape, A):
                 region.append(slice(a, int(rng.integers(a + 1, s + 1))))
             else:
                 region.append(int(rng.integers(0, s)))
+        if op == "getitem_region":
+            # reads also take strided / reversed slices and index lists in any order (no repeats)
+            for m_, s_ in enumerate(shape):
+                c2 = rng.random()
+                if c2 < 0.2:
+                    region[m_] = slice(None, None, int(rng.choice([2, -1, -2])))
+                elif c2 < 0.4:
+                    k_ = int(rng.integers(1, s_ + 1))
+                    region[m_] = [int(x) for x in rng.permutation(s_)[:k_]]
         if all(isinstance(r, int) for r in region):
             region[0] = slice(None)
         p["region"] = region
@@ -559,8 +568,9 @@ def _reference(op, A, B, p):
         if op == "getitem_subs":
             return A[tuple(p["subs"].T)].reshape(-1)
         if op == "getitem_region":
-            r = A[tuple(p["region"])]
-            return r
+            idx = [np.arange(s_)[r_] if isinstance(r_, slice) else np.array([r_]) if isinstance(r_, int) else np.array(r_, dtype=int) for r_, s_ in zip(p["region"], A.shape)]
+            r = A[np.ix_(*idx)]
+            return r.reshape([len(i_) for i_, r_ in zip(idx, p["region"]) if not isinstance(r_, int)])
         if op == "setitem_subs":
             C = A.copy()
             C[tuple(p["subs"].T)] = p["vals"]
